@@ -53,6 +53,7 @@ import (
 	"iter"
 	"log/slog"
 	"net/http"
+	"net/url"
 	"slices"
 	"time"
 
@@ -178,8 +179,22 @@ func NewClient(dsn string, options ...Option) *http.Client {
 
 var _ http.RoundTripper = (*transport)(nil)
 
+// targetURL returns the URL of the request's target URI (RFC 9110 §7.1): req.URL, with
+// the authority the request is addressed to when req.Host overrides it (one address
+// serving several virtual hosts must not share cache entries between them), and with a
+// request target given in URL.Opaque spelled out.
+func targetURL(req *http.Request) *url.URL {
+	u := req.URL
+	if req.Host != "" && req.Host != u.Host {
+		c := *u
+		c.Host = req.Host
+		u = &c
+	}
+	return internal.SpellOutOpaque(u)
+}
+
 func (r *transport) RoundTrip(req *http.Request) (*http.Response, error) {
-	urlKey := r.uk.URLKey(req.URL)
+	urlKey := r.uk.URLKey(targetURL(req))
 
 	if !r.rmc.IsRequestMethodUnderstood(req) {
 		return r.handleUnrecognizedMethod(req, urlKey)
@@ -236,7 +251,7 @@ func (r *transport) handleUnrecognizedMethod(
 	}
 	if internal.IsNonErrorStatus(resp.StatusCode) {
 		refs, _ := r.cache.GetRefs(urlKey)
-		r.ci.InvalidateCache(req.URL, resp.Header, refs, urlKey)
+		r.ci.InvalidateCache(targetURL(req), resp.Header, refs, urlKey)
 	}
 	internal.CacheStatusBypass.ApplyTo(resp.Header)
 	r.logger.LogCacheBypass(
